@@ -1,4 +1,6 @@
-import SuxModel.Func.LemmasPeel3
+import SuxModel.Func.LemmasLge
+import SuxModel.Func.LemmasPar2
+import SuxModel.Func.LemmasStack
 /-!
 # C07 — a built static function returns the stored value for every key
 
@@ -18,8 +20,20 @@ Chain of theorems (each link is a theorem below; the links to other properties a
 * `equations_hold_get`: hence `get` returns the stored value of every key.
 The runner checks the hypothesis of `equations_hold_get` on every exported instance.
 
-Not proved: that some seed makes every shard solvable (probabilistic; see C17), and the
-independence of the thread schedule (`par_solve` is modelled as the per-shard pure functions).
+Second layer (below the `/-! ## … -/` headings at the end of the file):
+* the two signature-payload peelers (`Func/ModelSig.lean`): `peel_sound_high_mem`,
+  `peel_sound_low_mem` (with `lowmem_recover`), `peel_assign_correct_high_mem` / `_low_mem`,
+  `sig_peelers_agree`; all three peelers share one invariant (`InvP`, of which `Inv` is the
+  instance `pay = id`: `peel_invariant_shared`) and one loop theorem (`peel_loop_total`);
+* `peel_fuel_sufficient`: the visit loop returns within the fuel the model passes;
+* `count_sort_correct`; `lge_system_wf` + `lge_shard_correct` (`Func/ModelSort.lean`; the solver
+  is C19's model and C19's `lazy_sound` / `lazy_complete` / `lazy_total` are *used*);
+* `par_solve_schedule_independent`, `par_solve_complete_suffix`,
+  `par_solve_early_return_counterexample` (`Func/ModelPar.lean`).
+
+Not proved: that some seed makes every shard solvable (probabilistic; see C17); liveness of
+`par_solve` (that every schedule can be extended to a terminal state).  Not modelled: the
+`debug_assert!(lower < upper)` of `DoubleStack::push_*`.
 -/
 namespace Sux.Func
 
@@ -175,5 +189,304 @@ example : ∃ b, trySeedBook (fun _ => 3) (fun _ _ => 9) (fun _ _ => 110) (fun _
     (fun _ _ _ => false) (some 400000) 8 8 none 100001 = .ok b ∧ b.storeShardBits = 1 ∧
     b.graphShardBits = 1 ∧ b.bucketBits = 3 := by
   refine ⟨⟨3, 1, 1, 100001, ⟨62, 9, 110⟩⟩, by decide, rfl, rfl, rfl⟩
+
+/-! ## The signature-payload peelers -/
+
+/-- **One invariant for the three peelers.**  The XOR-trick invariant is stated for an arbitrary
+    payload `pay : edge index → payload` (`InvP`); `peel_by_index` is the instance `pay = id`. -/
+theorem peel_invariant_shared (es : Array Edge) (nv : Nat) (g : XorGraph) (P piv : List Nat) :
+    Inv es nv g P piv ↔ InvP es id nv g P piv := inv_iff_invP es nv g P piv
+
+/-- **The visit loop, any payload, total form.**  From a state satisfying the invariant, with every
+    stacked vertex of degree at most one and `|stack| + 2·|present edges| < fuel`, the loop returns
+    (no out-of-fuel, no `debug_assert!(degree < 2)`, no index or underflow panic, no `oob`), and
+    the visits (`pv'`, with edge indices; the loop records the payloads `pay t.x`) are in an order
+    in which `assign` can process them, every pivot still carries side and payload of its edge
+    (`LoopPost.rc`), and the invariant holds. -/
+theorem peel_loop_total (es : Array Edge) (pay : Nat → Nat) (nv : Nat) (L : List Nat)
+    (edgeOf : Nat → Out Edge)
+    (hes : ∀ i, i < es.size → EdgeOK nv (eAt es i))
+    (hedge : ∀ i, i < es.size → edgeOf (pay i) = .ok (eAt es i))
+    (fuel : Nat) (g : XorGraph) (st : List Nat) (pv : List Visit) (P piv : List Nat)
+    (hinv : InvP es pay nv g P piv) (hst : ∀ w ∈ st, w < nv ∧ deg es P w ≤ 1)
+    (hP : ∀ i ∈ P, i < es.size) (hfuel : st.length + 2 * P.length < fuel)
+    (hgo : GoodOrder es P pv) (hvo : ∀ t ∈ pv, VisitOK es t) (hperm : (pv.map (·.x) ++ P).Perm L)
+    (hrec : Rec pay g pv) (hpiv : ∀ t ∈ pv, t.v ∈ piv) :
+    ∃ g' pv' P' piv',
+      peelLoop edgeOf fuel g st (pv.map (payV pay)) = .ok (g', pv'.map (payV pay)) ∧
+      LoopPost es pay nv L g' pv' P' piv' :=
+  peelLoopP_total es pay nv L edgeOf hes hedge fuel g st pv P piv hinv hst hP hfuel hgo hvo hperm
+    hrec hpiv
+
+/-- **`peel_by_sig_vals_high_mem` is sound.**  `pays[i]` is the payload of the `i`-th key,
+    `c.edgeOf` its local edge (three distinct in-range vertices: C16).  The payloads on
+    `sig_vals_stack` (most recent first) are those of visits `vs` that name each edge at most once,
+    record vertex and side, with fresh pivots; visits and unpeeled edges are the whole shard. -/
+theorem peel_sound_high_mem (nv : Nat) (c : PayCfg) (pays : Array Nat)
+    (hes : ∀ i, i < pays.size → EdgeOK nv (c.edgeOf (payOf pays i)))
+    (g g' : XorGraph) (peeled : List Visit)
+    (hg : sigGraph nv c pays = .ok g) (hv : sigVisit nv c pays g = .ok (g', peeled)) :
+    ∃ (vs : List Visit) (core : List Nat),
+      peeled = vs.map (payV (payOf pays)) ∧
+      GoodOrder (esOf c pays) core vs ∧ (∀ t ∈ vs, VisitOK (esOf c pays) t) ∧
+      (vs.map (·.x) ++ core).Perm (List.range pays.size) := by
+  obtain ⟨vs, core, h1, h2, h3, h4, _⟩ := peelSig_sound nv c pays hes g g' peeled hg hv
+  exact ⟨vs, core, h1, h2, h3, h4⟩
+
+/-- **`lowmem_recover`.**  If every pivot of the visits `pv` still has degree byte `= side` and
+    packed word `= payload` (`Rec`, maintained by the loop: `zero(v)` clears only the degree bits,
+    and a later `remove` touches vertices of present edges only, whereas a pivot has none), then
+    reading `edge_and_side(v)` for the stacked vertices yields exactly what the high-memory peeler
+    stacked. -/
+theorem lowmem_recover_thm (c : PayCfg) (pay : Nat → Nat) (nv : Nat) (g' : XorGraph)
+    (hs1 : g'.ds.size = nv) (hs2 : g'.edges.size = nv)
+    (pv : List Visit) (hrec : Rec pay g' pv) (hlt : ∀ t ∈ pv, t.v < nv) :
+    lowItems c g' (pv.map (·.v)) = .ok (highItems c (pv.map (payV pay))) :=
+  lowmem_recover c pay nv g' hs1 hs2 pv hrec hlt
+
+/-- **`peel_by_sig_vals_low_mem` is sound**: as `peel_sound_high_mem`, and what it reads back from
+    the graph for the vertices on the upper stack is what the high-memory peeler kept. -/
+theorem peel_sound_low_mem (nv : Nat) (c : PayCfg) (pays : Array Nat)
+    (hes : ∀ i, i < pays.size → EdgeOK nv (c.edgeOf (payOf pays i)))
+    (g g' : XorGraph) (peeled : List Visit)
+    (hg : sigGraph nv c pays = .ok g) (hv : sigVisit nv c pays g = .ok (g', peeled)) :
+    ∃ (vs : List Visit) (core : List Nat),
+      peeled = vs.map (payV (payOf pays)) ∧
+      GoodOrder (esOf c pays) core vs ∧ (∀ t ∈ vs, VisitOK (esOf c pays) t) ∧
+      (vs.map (·.x) ++ core).Perm (List.range pays.size) ∧
+      lowItems c g' (peeled.map (·.v)) = .ok (highItems c peeled) :=
+  peelSig_sound nv c pays hes g g' peeled hg hv
+
+/-- the two signature peelers are the same function of shard and data -/
+theorem sig_peelers_agree (nv : Nat) (c : PayCfg) (pays : Array Nat) (d : Array Nat)
+    (hes : ∀ i, i < pays.size → EdgeOK nv (c.edgeOf (payOf pays i))) :
+    peelBySigLow nv c pays d = peelBySigHigh nv c pays d := low_eq_high nv c pays d hes
+
+/-- **Complete peeling by `peel_by_sig_vals_high_mem` + `assign`: every equation of the shard
+    holds** (and no access was out of bounds). -/
+theorem peel_assign_correct_high_mem (nv : Nat) (c : PayCfg) (pays : Array Nat) (d d' : Array Nat)
+    (hes : ∀ i, i < pays.size → EdgeOK nv (c.edgeOf (payOf pays i))) (hsz : d.size = nv)
+    (h : peelBySigHigh nv c pays d = .ok (some d')) :
+    d'.size = d.size ∧ ∀ i, i < pays.size → (c.eqOf (payOf pays i)).holds (rdA d') :=
+  peelBySigHigh_correct nv c pays d d' hes hsz h
+
+/-- **Complete peeling by `peel_by_sig_vals_low_mem` + `assign`: every equation of the shard
+    holds.** -/
+theorem peel_assign_correct_low_mem (nv : Nat) (c : PayCfg) (pays : Array Nat) (d d' : Array Nat)
+    (hes : ∀ i, i < pays.size → EdgeOK nv (c.edgeOf (payOf pays i))) (hsz : d.size = nv)
+    (h : peelBySigLow nv c pays d = .ok (some d')) :
+    d'.size = d.size ∧ ∀ i, i < pays.size → (c.eqOf (payOf pays i)).holds (rdA d') :=
+  peelBySigLow_correct nv c pays d d' hes hsz h
+
+/-- the signature peelers return (`Ok`/`Err` of the Rust method) unless a degree byte overflowed -/
+theorem peel_by_sig_total (nv : Nat) (c : PayCfg) (pays : Array Nat) (d : Array Nat)
+    (hes : ∀ i, i < pays.size → EdgeOK nv (c.edgeOf (payOf pays i))) (hsz : d.size = nv) :
+    sigGraph nv c pays = .panic ∨
+      ∃ r, peelBySigHigh nv c pays d = .ok r ∧ peelBySigLow nv c pays d = .ok r := by
+  rcases peelBySigHigh_total nv c pays d hes hsz with h | ⟨r, h⟩
+  · exact Or.inl h
+  · exact Or.inr ⟨r, h, by rw [low_eq_high nv c pays d hes]; exact h⟩
+
+/-- `Err(())` of a signature peeler: some edge is left (a non-empty 2-core) -/
+theorem peel_by_sig_err (nv : Nat) (c : PayCfg) (pays : Array Nat) (d : Array Nat)
+    (hes : ∀ i, i < pays.size → EdgeOK nv (c.edgeOf (payOf pays i)))
+    (h : peelBySigHigh nv c pays d = .ok none) :
+    ∃ (vs : List Visit) (core : List Nat), core ≠ [] ∧
+      (vs.map (·.x) ++ core).Perm (List.range pays.size) ∧ GoodOrder (esOf c pays) core vs :=
+  peelBySigHigh_none nv c pays d hes h
+
+/-! ## `peelFuel` suffices -/
+
+/-- **Out-of-fuel is unreachable.**  For any payload, from the graph a peeler builds (invariant
+    with all edges present, no pivots) the visit loop started on the preloaded stack returns
+    within `peelFuel nv m = nv + 3·m + 1` iterations (the measure `|stack| + 2·|present edges|`
+    starts at most at `nv + 2·m` and decreases at every iteration). -/
+theorem peel_fuel_sufficient (es : Array Edge) (pay : Nat → Nat) (nv : Nat)
+    (edgeOf : Nat → Out Edge)
+    (hes : ∀ i, i < es.size → EdgeOK nv (eAt es i))
+    (hedge : ∀ i, i < es.size → edgeOf (pay i) = .ok (eAt es i))
+    (g : XorGraph) (hinv : InvP es pay nv g (List.range es.size) []) :
+    ∃ g' vs, peelLoop edgeOf (peelFuel nv es.size) g (preload g) [] = .ok (g', vs) := by
+  obtain ⟨g', pv', _, _, h, _⟩ := visit_total es pay nv edgeOf hes hedge g hinv
+  exact ⟨g', _, h⟩
+
+/-- instance: `peel_by_index` returns unless a degree byte overflowed
+    (`assert!(!xor_graph.overflow)`) -/
+theorem peel_by_index_total (es : Array Edge) (nv : Nat)
+    (hes : ∀ i, i < es.size → EdgeOK nv (eAt es i)) :
+    (∃ g, addEdges (XorGraph.new nv) ((List.range es.size).zip es.toList) = .ok g ∧
+      g.overflow = true ∧ peelByIndex nv es = .panic) ∨
+    ∃ vs, peelByIndex nv es = .ok vs := peelByIndex_total es nv hes
+
+/-- **`DoubleStack` capacity, partial.**  Full statement (open): a copy of the visit loop with the
+    two `debug_assert!(lower < upper)` checks equals `peelLoop` under the hypotheses of
+    `peel_loop_total` plus `(st ++ piv).Nodup`.  Proved: the counting invariant — the vertices on
+    the visit stack and the pivots are pairwise distinct, a peeling step preserves that, hence
+    `lower + upper_len < nv` before the `push_upper` and `≤ nv` after the step. -/
+theorem doublestack_capacity_partial' (es : Array Edge) (pay : Nat → Nat) (nv : Nat)
+    (g g3 : XorGraph) (P piv : List Nat) (v i : Nat) (st st' : List Nat)
+    (hinv : InvP es pay nv g P piv) (hi : i ∈ P)
+    (hst : ∀ w ∈ v :: st, w < nv ∧ deg es P w ≤ 1) (hpiv : ∀ w ∈ piv, w < nv)
+    (hnd : (v :: st ++ piv).Nodup)
+    (post : StepPost es pay nv g g3 P piv v i st st') :
+    st.length + piv.length < nv ∧ (st' ++ (v :: piv)).Nodup ∧
+      st'.length + (piv.length + 1) ≤ nv :=
+  doublestack_capacity_partial es pay nv g g3 P piv v i st st' hinv hi hst hpiv hnd post
+
+/-! ## `count_sort` and `lge_shard` -/
+
+/-- **`count_sort` sorts stably.**  If every `sort_key` is below `num_sort_keys`, the method
+    returns (no index panic) and its output is a permutation of the input, sorted by key, in
+    which elements of equal key keep their order. -/
+theorem count_sort_correct (key : Nat → Nat) (K : Nat) (data : Array Nat)
+    (hk : ∀ x ∈ data.toList, key x < K) :
+    ∃ out, countSort key K data = .ok out ∧
+      out.toList.Perm data.toList ∧
+      out.toList.Pairwise (fun a b => key a ≤ key b) ∧
+      ∀ k, out.toList.filter (fun x => key x == k) = data.toList.filter (fun x => key x == k) := by
+  obtain ⟨out, h1, h2⟩ := countSort_spec key K data hk
+  refine ⟨out, h1, ?_, ?_, ?_⟩
+  · rw [h2]; exact stableByKey_perm key K _ hk
+  · rw [h2]; exact stableByKey_sorted key _ K
+  · intro k
+    rw [h2]
+    by_cases hkK : k < K
+    · exact stableByKey_stable key _ K k hkK
+    · have e1 : (stableByKey key K data.toList).filter (fun x => key x == k) = [] := by
+        rw [List.filter_eq_nil_iff]
+        intro x hx
+        have := ((mem_stableByKey key K _ x).mp hx).2
+        simp only [beq_iff_eq]; omega
+      have e2 : data.toList.filter (fun x => key x == k) = [] := by
+        rw [List.filter_eq_nil_iff]
+        intro x hx
+        have := hk x hx
+        simp only [beq_iff_eq]; omega
+      rw [e1, e2]
+
+/-- the hypothesis of `count_sort_correct` holds for the three fuse logics -/
+theorem sort_key_in_range (p : Params) (sig : Sig) (h1 : sig.1 < 2 ^ 64) (h2 : sig.2 < 2 ^ 64)
+    (hl : 0 < p.l) (hl32 : p.l < 2 ^ 32) : sortKey p sig < p.l := sortKey_lt p sig h1 h2 hl hl32
+
+/-- what happens to the (single) shard of an unsharded build between `try_push` and `solve_shard`
+    (bucketing by the top `b` bits, sort by signature under `check_dups`, `count_sort`) is a
+    permutation and never panics — so the equations solved are those of the pushed keys -/
+theorem shard_order_perm (p : Params) (b : Nat) (dups : Bool) (pushed : List Nat)
+    (hb : b ≤ 64) (hl : 0 < p.l) (hl32 : p.l < 2 ^ 32) :
+    ∃ l, shardOrder p b dups pushed = .ok l ∧ l.Perm pushed :=
+  shardOrder_perm p b dups pushed hb hl hl32
+
+/-- **The system handed to the solver is in C19's domain** (`Sux.GF2.Sys.WF`): every equation has
+    three strictly increasing variables below `num_vertices`.  Strictness is the distinctness of
+    the three vertices (C16); `nv ≤ 2^32` makes the cast `x as u32` the identity (the builder
+    asserts it in `set_up_graphs`). -/
+theorem lge_system_wf (nv : Nat) (es : Array Edge) (vals : Array Nat) (peeledIdx : List Nat)
+    (hes : ∀ i, i < es.size → EdgeOK nv (eAt es i)) (hnv : nv ≤ 2 ^ 32) :
+    (lgeSystem nv es vals peeledIdx).WF := lgeSystem_wf nv es vals peeledIdx hes hnv
+
+/-- **`lge_shard` is correct** — with C19's theorem about the lazy solver, not a hypothesis:
+    `Ok(())` ⇒ every equation of the shard holds in its chunk. -/
+theorem lge_shard_correct (nv : Nat) (es : Array Edge) (vals : Array Nat) (d d' : Array Nat)
+    (hes : ∀ i, i < es.size → EdgeOK nv (eAt es i)) (hnv : nv ≤ 2 ^ 32) (hsz : d.size = nv)
+    (h : lgeShard nv es vals d = .ok (some d')) :
+    d'.size = d.size ∧ ∀ i, i < es.size → (eqIdx es vals i).holds (rdA d') :=
+  lgeShard_correct nv es vals d d' hes hnv hsz h
+
+/-- `Err(())` ⇒ the equations of the shard have no solution whatsoever -/
+theorem lge_shard_unsolvable (nv : Nat) (es : Array Edge) (vals : Array Nat) (d : Array Nat)
+    (hes : ∀ i, i < es.size → EdgeOK nv (eAt es i)) (hnv : nv ≤ 2 ^ 32) (hsz : d.size = nv)
+    (h : lgeShard nv es vals d = .ok none) :
+    ¬ ∃ f : Nat → Nat, ∀ i, i < es.size → (eqIdx es vals i).holds f :=
+  lgeShard_none nv es vals d hes hnv hsz h
+
+/-- no panic and no out-of-bounds access in `lge_shard` unless a degree byte overflowed -/
+theorem lge_shard_total (nv : Nat) (es : Array Edge) (vals : Array Nat) (d : Array Nat)
+    (hes : ∀ i, i < es.size → EdgeOK nv (eAt es i)) (hnv : nv ≤ 2 ^ 32) (hsz : d.size = nv) :
+    peelByIndex nv es = .panic ∨ ∃ r, lgeShard nv es vals d = .ok r :=
+  lgeShard_total nv es vals d hes hnv hsz
+
+/-! ## Thread schedules of `par_solve` -/
+
+/-- **Schedule independence.**  For every schedule (`evs`) that the model of `par_solve` can
+    execute from the initial state: if no error was sent (`Ok(())`), the chunk of every processed
+    shard is `solve j` of its initial chunk and every other chunk is untouched; if moreover every
+    non-empty shard was processed, the backend equals the sequential left-to-right result. -/
+theorem par_solve_schedule_independent (c : Par.Cfg) (chunks0 : Array (Array Nat))
+    (evs : List Par.Ev) (s : Par.St) (hT : 0 < c.threads)
+    (hr : Par.run c chunks0.size (Par.init c chunks0) evs = some s) (hok : s.errs = []) :
+    (s.chunks.size = chunks0.size ∧ ∀ j,
+      (j ∈ s.done → ∃ ch, c.solve j (chunks0.getD j #[]) = some ch ∧ s.chunks.getD j #[] = ch) ∧
+      (j ∉ s.done → s.chunks.getD j #[] = chunks0.getD j #[])) ∧
+    ((∀ j, j < chunks0.size → c.empty j = false → j ∈ s.done) →
+      Par.seqSolve c chunks0 = some s.chunks) :=
+  ⟨Par.par_solve_pointwise c chunks0 evs s hr hok,
+   fun hall => Par.par_solve_eq_seq c chunks0 evs s hT hr hok hall⟩
+
+/-- **The early `return` on an empty shard is harmless when all remaining shards are empty**:
+    if the empty shards form a suffix of the shard sequence (e.g. there is none, or `n = 0`),
+    every terminal `Ok` state has solved every non-empty shard — hence (previous theorem) equals
+    the sequential result. -/
+theorem par_solve_complete_suffix (c : Par.Cfg) (chunks0 : Array (Array Nat))
+    (evs : List Par.Ev) (s : Par.St)
+    (hup : ∀ j j', c.empty j = true → j ≤ j' → c.empty j' = true) (hT : 0 < c.threads)
+    (hr : Par.run c chunks0.size (Par.init c chunks0) evs = some s)
+    (hterm : s.terminal = true) (hok : s.errs = []) :
+    (∀ j, j < chunks0.size → c.empty j = false → j ∈ s.done) ∧
+    Par.seqSolve c chunks0 = some s.chunks := by
+  have h := Par.par_solve_complete c chunks0 evs s hup hT hr hterm hok
+  exact ⟨h, Par.par_solve_eq_seq c chunks0 evs s hT hr hok h⟩
+
+/-- **… and harmful otherwise** (finding candidate): one thread, shards `[empty, non-empty]`.
+    The history `send, recv, sendFail` is executable, terminal, error-free (`par_solve` returns
+    `Ok(())`), and the second shard is unsolved. -/
+theorem par_solve_early_return_counterexample :
+    Par.run Par.cexCfg Par.cexChunks.size (Par.init Par.cexCfg Par.cexChunks) Par.cexSchedule
+        = some Par.cexFinal ∧
+      Par.cexFinal.terminal = true ∧ Par.cexFinal.errs = [] ∧
+      Par.cexFinal.chunks = #[#[0], #[0]] ∧ Par.cexCfg.empty 1 = false ∧ 1 ∉ Par.cexFinal.done ∧
+      Par.seqSolve Par.cexCfg Par.cexChunks = some #[#[0], #[7]] :=
+  Par.early_return_counterexample
+
+/-! ### non-vacuity of the second layer -/
+
+/-- payloads for the three edges of `exEs` with the values of `exVals`:
+    `x = v0 + 8·v1 + 64·v2 + 512·val` -/
+def exCfg : PayCfg :=
+  { edgeOf := fun x => (x % 8, x / 8 % 8, x / 64 % 8), valOf := fun x => x / 512 }
+def exPays : Array Nat := #[2696, 4881, 6554]
+
+theorem exPays_ok : ∀ i, i < exPays.size → EdgeOK 7 (exCfg.edgeOf (payOf exPays i)) := by
+  intro i hi
+  have : i = 0 ∨ i = 1 ∨ i = 2 := by simp [exPays] at hi; omega
+  rcases this with h | h | h <;> subst h <;> constructor <;> decide
+
+example : peelBySigHigh 7 exCfg exPays (Array.replicate 7 0) = .ok (some #[0, 0, 5, 0, 12, 0, 9]) := by
+  decide
+example : peelBySigLow 7 exCfg exPays (Array.replicate 7 0) = .ok (some #[0, 0, 5, 0, 12, 0, 9]) := by
+  decide
+example : ∀ i, i < exPays.size →
+    (exCfg.eqOf (payOf exPays i)).holds (rdA #[0, 0, 5, 0, 12, 0, 9]) :=
+  (peel_assign_correct_low_mem 7 exCfg exPays (Array.replicate 7 0) _ exPays_ok (by simp)
+    (by decide)).2
+/-- the packed `SigVal` of a function build decodes to its parts -/
+example : svSig (packSV (5, 9) 77) = (5, 9) ∧ svVal (packSV (5, 9) 77) = 77 := by decide
+
+example : countSort (fun x => x % 3) 3 #[5, 3, 4, 0, 2, 1] = .ok #[3, 0, 4, 1, 5, 2] := by decide
+
+theorem exCore_ok : ∀ i, i < exCore.size → EdgeOK 4 (eAt exCore i) := by
+  intro i hi
+  have : i = 0 ∨ i = 1 ∨ i = 2 ∨ i = 3 := by simp [exCore] at hi; omega
+  rcases this with h | h | h | h <;> subst h <;> constructor <;> decide
+
+/-- nothing of `exCore` can be peeled; the solver does all the work -/
+example : (lgeSystem 4 exCore #[1, 2, 4, 8] []).WF := by decide
+example : (match lgeShard 4 exCore #[1, 2, 4, 8] (Array.replicate 4 0) with
+    | .ok (some d) => (List.range 4).all (fun i =>
+        d.getD (eAt exCore i).1 0 ^^^ d.getD (eAt exCore i).2.1 0 ^^^ d.getD (eAt exCore i).2.2 0
+          == #[1, 2, 4, 8].getD i 0)
+    | _ => false) = true := by decide +kernel
+/-- an unsolvable shard: the same edge twice with different values -/
+example : lgeShard 3 #[(0, 1, 2), (0, 1, 2)] #[1, 2] (Array.replicate 3 0) = .ok none := by
+  decide +kernel
 
 end Sux.Func
